@@ -100,6 +100,47 @@ theorem execd_error_path_counterexample : ¬ FullStatement := by
   revert h2
   decide
 
+/-- **M1d (a restored `exec.d`, `Dir` level).** Whatever entries the `exec.d` directory of the layer held before
+(`old₁`, `old₂`: any files, links, directories) they do not reach the result: the call behaves as on the layer without
+`exec.d`. No hypothesis on the programs (any order, missing sources, repeated names). -/
+theorem execd_previous_content_irrelevant (l : Layer) (d old₁ old₂ : Dir) (progs : List (Bytes × Option Bytes)) :
+    replaceExecdLoop { l with dir := some (d.set nExecd (.dir old₁)) } progs =
+      replaceExecdLoop { l with dir := some (d.set nExecd (.dir old₂)) } progs ∧
+    replaceExecdLoop { l with dir := some (d.set nExecd (.dir old₁)) } progs =
+      replaceExecdLoop { l with dir := some (d.erase nExecd) } progs :=
+  ⟨(replaceExecdLoop_forgets l d old₁ progs).trans (replaceExecdLoop_forgets l d old₂ progs).symm,
+   replaceExecdLoop_forgets l d old₁ progs⟩
+
+/-- **M1e (a restored `exec.d`, storage level; every source present).** `XFs` keeps which names of the restored
+`exec.d` share storage (hard links of one inode, symlinks to a sibling or to a file elsewhere) and `XFs.copyTo` writes
+through them as `fs::copy` does. For any two such states `fs₁`, `fs₂` and any two iteration orders of the wanted map
+(distinct names, at least one): both calls complete; `exec.d` is the same directory; every name is a regular file of
+the call's own (link count 1) holding its own source's bytes and nothing else is there; no pre-existing storage —
+inside or outside `exec.d` — is written. The wipe is what makes this true: `in_place_overwrite_depends_on_order`. -/
+theorem execd_rewrite_ignores_restored_entries (fs₁ fs₂ : XFs) (progs σ₁ σ₂ : List (Bytes × Bytes))
+    (h₁ : σ₁.Perm progs) (h₂ : σ₂.Perm progs) (hnd : (progs.map (·.1)).Nodup) (hne : progs ≠ []) :
+    ∃ r₁ r₂, replaceExecdX fs₁ σ₁ = (some r₁, true) ∧ replaceExecdX fs₂ σ₂ = (some r₂, true) ∧
+      SameDir r₁.toDir r₂.toDir ∧
+      (∀ n, r₁.toDir.get n = (List.lookup n progs).map Node.file) ∧
+      (∀ e ∈ r₁.names, r₁.nlink e.2 = 1) ∧
+      r₁.data = fs₁.data ∧ r₁.outer = fs₁.outer := by
+  have ne₁ : σ₁ ≠ [] := fun e => hne (by subst e; exact h₁.symm.eq_nil)
+  have ne₂ : σ₂ ≠ [] := fun e => hne (by subst e; exact h₂.symm.eq_nil)
+  have nd₁ : (σ₁.map (·.1)).Nodup := (h₁.map (·.1)).nodup_iff.mpr hnd
+  have nd₂ : (σ₂.map (·.1)).Nodup := (h₂.map (·.1)).nodup_iff.mpr hnd
+  obtain ⟨r₁, e₁, d₁, o₁, own₁, v₁⟩ := replaceExecdX_spec fs₁ σ₁ ne₁
+  obtain ⟨r₂, e₂, _, _, _, v₂⟩ := replaceExecdX_spec fs₂ σ₂ ne₂
+  have g₁ : ∀ n, r₁.toDir.get n = (List.lookup n progs).map Node.file := fun n => by
+    rw [v₁, copyExecd_get_wanted σ₁ nd₁ n, lookup_perm h₁ nd₁ n]
+  have g₂ : ∀ n, r₂.toDir.get n = (List.lookup n progs).map Node.file := fun n => by
+    rw [v₂, copyExecd_get_wanted σ₂ nd₂ n, lookup_perm h₂ nd₂ n]
+  refine ⟨r₁, r₂, e₁, e₂, ?_, g₁, ?_, d₁, o₁⟩
+  · exact (sameDir_iff_ext _ _).mpr (ext_of_get_eq (fun n => (g₁ n).trans (g₂ n).symm))
+  · intro e he
+    obtain ⟨b, hb⟩ := own₁ e he
+    rw [hb]
+    rfl
+
 /-- **M1 (trait API `write_layer`: `LayerResult.env.process` and `LayerResult.exec_d_programs`).** For every two
 iteration orders of both maps the call returns the same result and leaves the same layer (directory, `<layer>.toml`
 document, SBOM files), provided the write succeeds at all (`LayerOk`, `ProcOk`, every exec.d source exists). -/
@@ -173,6 +214,34 @@ example : (replaceExecdLoop { dir := some [] } progs3).2 = .ok := by decide
 /-- `SameDir` separates directories that differ -/
 example : ¬ SameDir [([97], .file [1])] [([97], .file [2])] := by
   intro h; have := (Dir.optBeq_iff (some _) (some _)).mpr (congrArg some h); revert this; decide
+
+/-- a restored `exec.d` as the harness prepares it: `10-env` → symlink to the sibling `20-path` (inode 0) … -/
+private def fsSym : XFs := { names := [([49, 48], .symSib [50, 48]), ([50, 48], .ino 0)], data := [(0, [111])] }
+/-- … or both names hard links of inode 0, which has a third name outside `exec.d` -/
+private def fsHard : XFs := { names := [([49, 48], .ino 0), ([50, 48], .ino 0)], data := [(0, [111])], outer := [0] }
+private def want2 : List (Bytes × Bytes) := [([49, 48], [65]), ([50, 48], [66])]
+example : fsHard.nlink (.ino 0) = 3 := by decide
+example : want2.reverse.Perm want2 := by decide
+example : (want2.map (·.1)).Nodup ∧ want2 ≠ [] := by decide
+/-- the model's `exec.d` after the call, from either state, in either order: both names regular files with their own bytes -/
+example : Dir.optBeq ((replaceExecdX fsSym want2).1.map XFs.toDir) (some [([50, 48], .file [66]), ([49, 48], .file [65])]) = true := by decide
+example : Dir.optBeq ((replaceExecdX fsHard want2.reverse).1.map XFs.toDir) (some [([49, 48], .file [65]), ([50, 48], .file [66])]) = true := by decide
+
+/-- what the loop alone does on the restored directory (the call without its wipe) -/
+private def overwriteInPlace (fs : XFs) (progs : List (Bytes × Bytes)) : Option (List (Bytes × Node)) × Bool :=
+  let r := XFs.copyAll fs progs
+  (some (sortDir r.1.toDir), r.2)
+
+/-- **Sensitivity of M1e.** Without the wipe the same loop is order-dependent on exactly these states: through the
+symlink / the shared inode both names end up with the bytes of whichever program was copied last. -/
+theorem in_place_overwrite_depends_on_order :
+    overwriteInPlace fsSym want2 ≠ overwriteInPlace fsSym want2.reverse ∧
+      overwriteInPlace fsHard want2 ≠ overwriteInPlace fsHard want2.reverse := by
+  constructor <;> intro h
+  · have := congrArg (fun r => Dir.optBeq r.1 (overwriteInPlace fsSym want2).1) h
+    revert this; decide
+  · have := congrArg (fun r => Dir.optBeq r.1 (overwriteInPlace fsHard want2).1) h
+    revert this; decide
 
 end NonVacuity
 
